@@ -154,6 +154,18 @@ func ReadAllVia(r io.Reader, buf int, limit int) (data []byte, anomaly string) {
 			}
 		} else {
 			zero = 0
+			// buffer sizes 3, 7, 11 …: the consumer takes one piece with Read and streams the rest
+			// with io.Copy (which goes through the reader's WriteTo when it has one) – the two
+			// parts together must be the stored bytes
+			if buf%4 == 3 && calls == 0 {
+				var rest bytes.Buffer
+				_, err := io.Copy(&rest, r)
+				data = append(data, rest.Bytes()...)
+				if err != nil {
+					return data, "Read error: " + err.Error()
+				}
+				return data, ""
+			}
 		}
 	}
 }
